@@ -6,6 +6,8 @@ import Model.Codec
 import Model.Row
 import Model.JsonRead
 import Model.Cells
+import Model.Value
+import Model.CastGen
 import Driver.Common
 
 namespace Jl.DriverC06
@@ -102,6 +104,27 @@ def observeO (o : OMap Val) (err : String) : String :=
 
 open Jl.Driver (Result)
 
+/-- Cells with a declared raw type (casts can fail in `Set`, conversions in `Import`): the cell
+    operations of `Model.Value` over the regenerated cast tables. The generator keeps floats and
+    times out of these histories, so no standard-library answer is needed; should one be needed
+    all the same, the cell is marked and the case abstains. -/
+def poison : Val := .cell (.other 424242) .auto .none
+
+def env0 : Value.Env := ⟨genTables, Ext.empty⟩
+
+def vops : CellOps Val Dyn ErrClass :=
+  { newCell := Cells.newCell, autoCell := Cells.autoCell,
+    setExisting := fun c x =>
+      if c.show == poison.show then poison else
+      match Value.setExisting env0 c x with
+      | .ok c' => c'
+      | _ => poison,
+    importInto := fun c x =>
+      if c.show == poison.show then (poison, none) else
+      match Value.importVal env0 c x with
+      | .ok r => r
+      | _ => (poison, none) }
+
 def splitOn2 (s : String) (sep : String) : List String := s.splitOn sep
 
 /-- One protocol line: fields after the kind. -/
@@ -121,14 +144,23 @@ def runCase (opsField obsField : String) : Result := Id.run do
     | none => return ⟨"B", s!"step {step}: cannot parse op: {os}"⟩
     | some op =>
       let syn := syntaxError ts
-      let (r', e) := r.step Cells.ops op
-      let (o', e') := OMap.step Cells.ops o op
+      let (r', e) := r.step vops op
+      let (o', e') := OMap.step vops o op
       r := r'
       o := o'
+      if r'.iter.any (fun (_, v) => match v with | some v => v.show == poison.show | none => false) then
+        return ⟨"X", s!"step {step} op [{os}]: model abstains (standard-library answer needed)"⟩
       let mo := observeL r (errName syn e)
       let so := observeO o (errName syn e')
-      let d := mo != ob
-      let p := so != ob
+      -- a cell with a format or raw type that converts may refuse to be written (boolean cell holding
+      -- "soon"): serialisation then fails as a whole and shows no order; the other readers are compared
+      let converts := r.iter.any fun (_, v) =>
+        match v with
+        | some (.cell _ f t) => (f != Format.auto && f != Format.hidden) || t != Ty.none
+        | _ => false
+      let cut (x : String) : String := if converts && ob.endsWith "| jk=ERR" then (x.splitOn " | jk=").headD x else x
+      let d := cut mo != cut ob
+      let p := cut so != cut ob
       if d || p then
         let tag := (if d then "D" else "") ++ (if p then "P" else "")
         return ⟨tag, s!"step {step} op [{os}] impl [{ob}] model [{mo}] spec [{so}]"⟩
